@@ -113,6 +113,9 @@ type crashSentinel struct{}
 var hostDirs = []string{"/dev", "/proc", "/sys", "/run"}
 
 // ---------------------------------------------------------------- file tree
+// MakeTree creates the entries (exported for the real-kernel runner).
+func MakeTree(entries []Entry) error { return makeTree(entries) }
+
 func makeTree(entries []Entry) error {
 	// entries that cannot be created (a generated name clashing with an earlier one) are
 	// skipped: the initial world handed to Coq is the dump of what really exists
